@@ -165,6 +165,17 @@ Apply(S, op, arg) ==
          ELSE LET p == WrapOne(arg[1], N(S)) + 1 IN
               Ok([S EXCEPT !.a[p] = <<arg[2], arg[3]>>,
                            !.z = [k \in 1..D(S) |-> [S.z[k] EXCEPT ![p] = arg[4]]]], <<>>)
+    [] op = "swap_atoms" ->     \* tmp = array[i]; array[i] = array[j]; array[j] = tmp   (list-of-atoms semantics:
+                                \* an atom taken out of the array is a value of its own)
+         IF S.kind # "array" \/ ~InRange(arg[1], N(S)) \/ ~InRange(arg[2], N(S)) THEN Rej(S)
+         ELSE LET p == WrapOne(arg[1], N(S)) + 1  q == WrapOne(arg[2], N(S)) + 1 IN
+              Ok([S EXCEPT !.a = [S.a EXCEPT ![p] = S.a[q], ![q] = S.a[p]],
+                           !.z = <<[S.z[1] EXCEPT ![p] = S.z[1][q], ![q] = S.z[1][p]]>>], <<>>)
+    [] op = "take_then_overwrite" ->   \* tmp = array[i]; array[i] = Atom(arg[2..4]); the value read from tmp afterwards
+         IF S.kind # "array" \/ ~InRange(arg[1], N(S)) THEN Rej(S)
+         ELSE LET p == WrapOne(arg[1], N(S)) + 1 IN
+              Ok([S EXCEPT !.a[p] = <<arg[2], arg[3]>>,
+                           !.z = <<[S.z[1] EXCEPT ![p] = arg[4]]>>], AtomOut(S, 1, p - 1))
     [] op = "set_model" ->      \* stack[i] = get_array(j) with every cell shifted by arg[3]
          IF S.kind # "stack" \/ ~InRange(arg[1], D(S)) \/ ~InRange(arg[2], D(S)) THEN Rej(S)
          ELSE LET i == WrapOne(arg[1], D(S)) + 1  j == WrapOne(arg[2], D(S)) + 1 IN
